@@ -1072,4 +1072,7 @@ class Mgm2Computation(VariableComputation):
 
     @lru_cache(maxsize=512)
     def _compute_cost(self, **kwargs):
-        return assignment_cost(kwargs, self._constraints)
+        # the local cost includes the cost of our own variable for its value
+        return assignment_cost(kwargs, self._constraints) + self.variable.cost_for_val(
+            kwargs[self.variable.name]
+        )
